@@ -184,6 +184,10 @@ class OIS:
             value_dt, ois_curve, ois_curve, first_fixing_rate
         )
 
+        # the floating leg value carries the PAY sign when the fixed leg is received
+        if self.float_leg.leg_type == SwapTypes.PAY:
+            float_leg_value = -float_leg_value
+
         cpn = float_leg_value / pv01 / self.fixed_leg.notional
         return cpn
 
